@@ -70,6 +70,10 @@ pub struct VoiceSpec {
     pub fullcontext_version: String,
     pub duration: ModelSpec,
     pub streams: Vec<StreamSpec>,
+    /// syntactic style of the written file: bit 0 shuffle header lines inside their section,
+    /// bit 1 blank lines between header lines, bit 2 unquoted question patterns where legal,
+    /// bit 3 extra blank lines between questions / trees, bit 4 extra spaces inside node lines
+    pub style: u32,
     // derived, for oracles
     pub stage: usize,
     pub use_log_gain: bool,
@@ -100,10 +104,19 @@ fn fmt_f(x: f64) -> String {
 
 impl ModelSpec {
     pub fn tree_text(&self) -> String {
+        self.tree_text_styled(0)
+    }
+
+    pub fn tree_text_styled(&self, style: u32) -> String {
         let mut s = String::new();
-        for (name, pats) in &self.questions {
-            let pats: Vec<String> = pats.iter().map(|p| format!("\"{}\"", p)).collect();
-            s.push_str(&format!("QS {} {{ {} }}\n", name, pats.join(",")));
+        for (qi, (name, pats)) in self.questions.iter().enumerate() {
+            let unq = style & 4 != 0 && qi % 2 == 1;
+            let pats: Vec<String> = pats.iter().map(|p| if unq { p.clone() } else { format!("\"{}\"", p) }).collect();
+            let sep = if style & 4 != 0 && qi % 3 == 0 { ", " } else { "," };
+            s.push_str(&format!("QS {} {{ {} }}\n", name, pats.join(sep)));
+            if style & 8 != 0 && qi % 2 == 0 {
+                s.push('\n');
+            }
         }
         s.push('\n');
         for t in &self.trees {
@@ -117,15 +130,22 @@ impl ModelSpec {
                         Child::Node(i) => format!("{}", t.nodes[*i].id),
                         Child::Pdf(p) => leaf_name(&self.prefix, t.state, *p, t.quoted),
                     };
-                    s.push_str(&format!(
-                        " {:>4} {:<40} {:>14} {:>14} \n",
-                        n.id,
-                        self.questions[n.question].0,
-                        ch(&n.no),
-                        ch(&n.yes)
-                    ));
+                    if style & 16 != 0 {
+                        s.push_str(&format!("{}   {}  {}      {}\n", n.id, self.questions[n.question].0, ch(&n.no), ch(&n.yes)));
+                    } else {
+                        s.push_str(&format!(
+                            " {:>4} {:<40} {:>14} {:>14} \n",
+                            n.id,
+                            self.questions[n.question].0,
+                            ch(&n.no),
+                            ch(&n.yes)
+                        ));
+                    }
                 }
                 s.push_str("}\n");
+            }
+            if style & 8 != 0 {
+                s.push('\n');
             }
         }
         s
@@ -157,7 +177,7 @@ impl VoiceSpec {
             format!("{}-{}", start, data.len() - 1)
         };
         let dur_pdf = put(&self.duration.pdf_bytes());
-        let dur_tree = put(self.duration.tree_text().as_bytes());
+        let dur_tree = put(self.duration.tree_text_styled(self.style).as_bytes());
         let mut win_pos = Vec::new();
         for s in &self.streams {
             let mut v = Vec::new();
@@ -172,68 +192,85 @@ impl VoiceSpec {
             win_pos.push(v.join(","));
         }
         let pdf_pos: Vec<String> = self.streams.iter().map(|s| put(&s.model.pdf_bytes())).collect();
-        let tree_pos: Vec<String> = self.streams.iter().map(|s| put(s.model.tree_text().as_bytes())).collect();
+        let tree_pos: Vec<String> = self.streams.iter().map(|s| put(s.model.tree_text_styled(self.style).as_bytes())).collect();
         let gv_pdf_pos: Vec<Option<String>> = self.streams.iter().map(|s| s.gv.as_ref().map(|g| put(&g.pdf_bytes()))).collect();
         let gv_tree_pos: Vec<Option<String>> = self
             .streams
             .iter()
-            .map(|s| s.gv.as_ref().map(|g| put(g.tree_text().as_bytes())))
+            .map(|s| s.gv.as_ref().map(|g| put(g.tree_text_styled(self.style).as_bytes())))
             .collect();
 
-        let mut h = String::new();
-        h.push_str("[GLOBAL]\n");
-        h.push_str("HTS_VOICE_VERSION:1.0\n");
-        h.push_str(&format!("SAMPLING_FREQUENCY:{}\n", self.sampling_frequency));
-        h.push_str(&format!("FRAME_PERIOD:{}\n", self.frame_period));
-        h.push_str(&format!("NUM_STATES:{}\n", self.num_states));
-        h.push_str(&format!("NUM_STREAMS:{}\n", self.streams.len()));
-        h.push_str(&format!(
-            "STREAM_TYPE:{}\n",
-            self.streams.iter().map(|s| s.name.clone()).collect::<Vec<_>>().join(",")
-        ));
-        h.push_str(&format!("FULLCONTEXT_FORMAT:{}\n", self.fullcontext_format));
-        h.push_str(&format!("FULLCONTEXT_VERSION:{}\n", self.fullcontext_version));
-        h.push_str(&format!(
-            "GV_OFF_CONTEXT:{}\n",
-            self.gv_off_context.iter().map(|p| format!("\"{}\"", p)).collect::<Vec<_>>().join(",")
-        ));
-        h.push_str("COMMENT:\n");
-        h.push_str("[STREAM]\n");
+        let mut global: Vec<String> = vec![
+            "HTS_VOICE_VERSION:1.0".into(),
+            format!("SAMPLING_FREQUENCY:{}", self.sampling_frequency),
+            format!("FRAME_PERIOD:{}", self.frame_period),
+            format!("NUM_STATES:{}", self.num_states),
+            format!("NUM_STREAMS:{}", self.streams.len()),
+            format!("STREAM_TYPE:{}", self.streams.iter().map(|s| s.name.clone()).collect::<Vec<_>>().join(",")),
+            format!("FULLCONTEXT_FORMAT:{}", self.fullcontext_format),
+            format!("FULLCONTEXT_VERSION:{}", self.fullcontext_version),
+            format!("GV_OFF_CONTEXT:{}", self.gv_off_context.iter().map(|p| format!("\"{}\"", p)).collect::<Vec<_>>().join(",")),
+            "COMMENT:".into(),
+        ];
+        let mut stream: Vec<String> = Vec::new();
         for s in &self.streams {
-            h.push_str(&format!("VECTOR_LENGTH[{}]:{}\n", s.name, s.vector_length));
+            stream.push(format!("VECTOR_LENGTH[{}]:{}", s.name, s.vector_length));
         }
         for s in &self.streams {
-            h.push_str(&format!("IS_MSD[{}]:{}\n", s.name, s.is_msd as u8));
+            stream.push(format!("IS_MSD[{}]:{}", s.name, s.is_msd as u8));
         }
         for s in &self.streams {
-            h.push_str(&format!("NUM_WINDOWS[{}]:{}\n", s.name, s.windows.len()));
+            stream.push(format!("NUM_WINDOWS[{}]:{}", s.name, s.windows.len()));
         }
         for s in &self.streams {
-            h.push_str(&format!("USE_GV[{}]:{}\n", s.name, s.use_gv as u8));
+            stream.push(format!("USE_GV[{}]:{}", s.name, s.use_gv as u8));
         }
         for s in &self.streams {
-            h.push_str(&format!("OPTION[{}]:{}\n", s.name, s.options.join(",")));
+            stream.push(format!("OPTION[{}]:{}", s.name, s.options.join(",")));
         }
-        h.push_str("[POSITION]\n");
-        h.push_str(&format!("DURATION_PDF:{}\n", dur_pdf));
-        h.push_str(&format!("DURATION_TREE:{}\n", dur_tree));
+        let mut position: Vec<String> = vec![format!("DURATION_PDF:{}", dur_pdf), format!("DURATION_TREE:{}", dur_tree)];
         for (s, w) in self.streams.iter().zip(&win_pos) {
-            h.push_str(&format!("STREAM_WIN[{}]:{}\n", s.name, w));
+            position.push(format!("STREAM_WIN[{}]:{}", s.name, w));
         }
         for (s, p) in self.streams.iter().zip(&pdf_pos) {
-            h.push_str(&format!("STREAM_PDF[{}]:{}\n", s.name, p));
+            position.push(format!("STREAM_PDF[{}]:{}", s.name, p));
         }
         for (s, p) in self.streams.iter().zip(&tree_pos) {
-            h.push_str(&format!("STREAM_TREE[{}]:{}\n", s.name, p));
+            position.push(format!("STREAM_TREE[{}]:{}", s.name, p));
         }
         for (s, p) in self.streams.iter().zip(&gv_pdf_pos) {
             if let Some(p) = p {
-                h.push_str(&format!("GV_PDF[{}]:{}\n", s.name, p));
+                position.push(format!("GV_PDF[{}]:{}", s.name, p));
             }
         }
         for (s, p) in self.streams.iter().zip(&gv_tree_pos) {
             if let Some(p) = p {
-                h.push_str(&format!("GV_TREE[{}]:{}\n", s.name, p));
+                position.push(format!("GV_TREE[{}]:{}", s.name, p));
+            }
+        }
+        if self.style & 1 != 0 {
+            // deterministic shuffle of the lines inside each section (the header is a key/value map)
+            let rot = |v: &mut Vec<String>, k: usize| {
+                let n = v.len();
+                if n > 1 {
+                    v.rotate_left(k % n);
+                    v.swap(0, n / 2);
+                }
+            };
+            rot(&mut global, 3 + self.num_states);
+            rot(&mut stream, 2 + self.frame_period);
+            rot(&mut position, 5 + self.num_states);
+        }
+        let mut h = String::new();
+        for (tag, lines) in [("[GLOBAL]", &global), ("[STREAM]", &stream), ("[POSITION]", &position)] {
+            h.push_str(tag);
+            h.push('\n');
+            for (i, l) in lines.iter().enumerate() {
+                h.push_str(l);
+                h.push('\n');
+                if self.style & 2 != 0 && i % 3 == 1 && i + 1 < lines.len() {
+                    h.push('\n');
+                }
             }
         }
         h.push_str("[DATA]\n");
@@ -248,6 +285,15 @@ pub fn write_temp(bytes: &[u8], tag: &str) -> PathBuf {
     static N: AtomicU64 = AtomicU64::new(0);
     let n = N.fetch_add(1, Ordering::Relaxed);
     let p = scratch_dir().join(format!("{}-{}.htsvoice", tag, n));
+    std::fs::write(&p, bytes).expect("scratch dir must be writable");
+    p
+}
+
+/// Write to a per-thread path that is REUSED by every call from that thread (different contents
+/// under one path: exposes caches keyed by the path).
+pub fn write_temp_reused(bytes: &[u8], tag: &str) -> PathBuf {
+    let tid = format!("{:?}", std::thread::current().id()).replace(['(', ')'], "_");
+    let p = scratch_dir().join(format!("{}-reused-{}.htsvoice", tag, tid));
     std::fs::write(&p, bytes).expect("scratch dir must be writable");
     p
 }
@@ -671,6 +717,7 @@ pub fn gen_voice(t: &mut Tape, o: GenOpts) -> VoiceSpec {
         fullcontext_version: "1.0".into(),
         duration,
         streams,
+        style: if t.chance(0.5) { t.below(32) as u32 } else { 0 },
         stage,
         use_log_gain,
         alpha,
